@@ -28,6 +28,15 @@ CHECKS["C02"] = dict(
     technique="Lean 4 proof over a model translated from the intrinsics code (clang AST) + CPU correspondence",
     design="§4 C02", note=NOTE_BASE)
 
+CHECKS["C11"] = dict(
+    text=("Machine-checked theorems (Props/C11.lean) about Gen/Avx512.lean, regenerated on every run from "
+          "goldilocks_base_field_avx512.hpp (configuration -D__AVX512__, never built by the shipped tests) over Isa/Avx512.lean: "
+          "every lane of every 8-lane kernel is exact for ALL lane contents; the _b_c variants under the documented canonical "
+          "second operand (and under the weaker a+b < 2^64+p actually needed), the _8/_72/_96 variants under their multiplier "
+          "bound. Tie: regeneration + execution against the compiled kernels on this machine's AVX512F unit."),
+    technique="Lean 4 proof over a model translated from the intrinsics code (clang AST) + CPU correspondence",
+    design="§4 C11", note=NOTE_BASE)
+
 NOT_YET = {
 }
 
